@@ -18,4 +18,5 @@ class JobResult:
 
 def job():
     from checks import c04
+    c04.CURRENT['job_result_class'] = JobResult
     return c04.CURRENT['make']()
